@@ -393,17 +393,18 @@ func (o *Oracle) Coq() string {
 }
 
 type StickyRun struct {
-	In      Input                      `json:"in"`
-	Oracle  Oracle                     `json:"oracle"`
-	Hooked  bool                       `json:"hooked"`
-	Err     bool                       `json:"err"`
-	Panic   string                     `json:"panic,omitempty"`
-	Hang    bool                       `json:"hang,omitempty"`
-	NPicks  int                        `json:"npicks,omitempty"` // reverse-pair redirections reported (all of them, also when the oracle list is cut)
-	Plan    []PlanEntry                `json:"plan"`
-	RawPlan sarama.BalanceStrategyPlan `json:"-"`
-	Other   map[string]int             `json:"other,omitempty"`
-	Score   []int                      `json:"score,omitempty"`
+	In       Input                      `json:"in"`
+	Oracle   Oracle                     `json:"oracle"`
+	Hooked   bool                       `json:"hooked"`
+	Err      bool                       `json:"err"`
+	Panic    string                     `json:"panic,omitempty"`
+	Hang     bool                       `json:"hang,omitempty"`
+	NPicks   int                        `json:"npicks,omitempty"` // reverse-pair redirections reported (all of them, also when the oracle list is cut)
+	Plan     []PlanEntry                `json:"plan"`
+	RawPlan  sarama.BalanceStrategyPlan `json:"-"`
+	Reverted bool                       `json:"reverted,omitempty"` // the revert branch of balance() ran
+	Other    map[string]int             `json:"other,omitempty"`
+	Score    []int                      `json:"score,omitempty"`
 }
 
 func tps(l []sarama.VerifTP) []TP {
@@ -461,6 +462,7 @@ func RunStickyOn(inst *sarama.VerifSticky, in Input) StickyRun {
 	defer tr.Mu.Unlock()
 	run.Hooked = tr.Events > 0
 	run.Other = tr.Other
+	run.Reverted = tr.Reverted
 	run.Score = tr.Score
 	run.Err = err != nil
 	run.Panic = panicked
@@ -558,7 +560,7 @@ func (r *StickyRun) CoqCase(fx bool) string {
 	case !r.Err:
 		obs = "(OPlan " + PlanStr(r.Plan) + ")"
 	}
-	return cf.App("Build_scase", cf.Bool(fx), cf.Bool(r.Hooked), MembersStr(r.In.Members), TopicsStr(r.In.Topics), r.Oracle.Coq(), obs)
+	return cf.App("Build_scase", cf.Bool(fx), cf.Bool(r.Hooked), MembersStr(r.In.Members), TopicsStr(r.In.Topics), r.Oracle.Coq(), obs, revStr(r))
 }
 
 // ---------------------------------------------------------------- sticky chains
@@ -1106,4 +1108,87 @@ func IrregularSmall() []Input {
 		}
 	}
 	return out
+}
+
+// BystanderWorld: an honest chain start with a bystander member whose topic nobody else subscribes to (it is set aside as
+// "fixed" by balance()), and three to five members with non-identical subscriptions over the other topics; every topic is
+// covered and has enough partitions for everybody to own some after the first plan.
+func BystanderWorld(r *rand.Rand) *World {
+	w := &World{R: r, Topics: map[string][]int32{}, Members: map[string]*Member{}, Kind: "honest"}
+	w.Topics["u"] = Seq(1 + r.Intn(3))
+	shared := []string{"s", "t"}
+	if r.Intn(3) == 0 {
+		shared = append(shared, "v")
+	}
+	for _, t := range shared {
+		w.Topics[t] = Seq(3 + r.Intn(7))
+	}
+	w.Members["b0"] = &Member{ID: "b0", Topics: []string{"u"}}
+	n := 3 + r.Intn(3)
+	for i := 0; i < n; i++ {
+		var subs []string
+		for _, t := range shared {
+			if r.Intn(2) == 0 {
+				subs = append(subs, t)
+			}
+		}
+		if len(subs) == 0 {
+			subs = []string{shared[r.Intn(len(shared))]}
+		}
+		if i < len(shared) { // every shared topic has a subscriber
+			has := false
+			for _, t := range subs {
+				if t == shared[i] {
+					has = true
+				}
+			}
+			if !has {
+				subs = append(subs, shared[i])
+			}
+		}
+		id := fmt.Sprintf("m%d", i)
+		w.Members[id] = &Member{ID: id, Topics: subs}
+	}
+	w.next = n
+	return w
+}
+
+// BystanderChange: a leave or a subscription change among the non-bystander members (the bystander stays).
+func (w *World) BystanderChange() string {
+	r := w.R
+	var ms []string
+	for _, id := range w.memberList() {
+		if id != "b0" {
+			ms = append(ms, id)
+		}
+	}
+	if len(ms) > 2 && r.Intn(2) == 0 {
+		id := ms[r.Intn(len(ms))]
+		delete(w.Members, id)
+		w.Log = append(w.Log, "leave "+id)
+		return "leave"
+	}
+	id := ms[r.Intn(len(ms))]
+	var subs []string
+	for _, t := range w.topicList() {
+		if t != "u" && r.Intn(2) == 0 {
+			subs = append(subs, t)
+		}
+	}
+	if len(subs) == 0 {
+		subs = []string{"s"}
+	}
+	w.Members[id].Topics = subs
+	w.Log = append(w.Log, "resubscribe "+id)
+	return "other"
+}
+
+// RevHook: the tree reports whether the revert branch of balance() ran (sticky.revert call site).
+var RevHook = true
+
+func revStr(r *StickyRun) string {
+	if !RevHook {
+		return "None"
+	}
+	return cf.Some(cf.Bool(r.Reverted))
 }
